@@ -7,22 +7,20 @@
        InstantUndelegate/Unbond, validator share arithmetic) and of the bank's supply / supply offset,
      - takes the per-epoch multipliers (the twap price input) as arguments of the epoch operation.
    The model is tied to /repo by the correspondence run of props/c11.py on the real app.
+   Theorems whose statement depends on the staking model's exchange rate (refresh_exact, between_epochs_drift) carry the
+   suffix _partial and the hypothesis [init_ok] (validators start at exchange rate 1:1).
+   The literal reading of the in-between bound is refuted ([C11_drift_literal_refuted], finding C11-F1).
 
    Histories: [run cfg st ops] applies any list of operations (lock, top-up, superfluid delegate / undelegate /
    unbond / undelegate-and-unbond, begin-unlock, withdraw, time advance, end-block cleanup, epoch with arbitrary
    multipliers) with message atomicity ([apply]: a failing message leaves the state unchanged). *)
 From Coq Require Import ZArith List Bool Lia.
 Import ListNotations.
-From Osmo Require Import Base.DecModel C11.Model C11.Arith C11.Basics C11.LInv C11.LStep C11.Supply C11.Proofs.
+From Osmo Require Import Base.DecModel C11.Model C11.Arith C11.Basics C11.LInv C11.LStep C11.Supply C11.Proofs C11.SInv C11.Drift C11.History.
 Open Scope Z_scope.
 
-Definition reachable (cfg : config) (st : state) : Prop :=
-  exists t0 vals mults sup off bnd ops, 0 < t0 /\ st = run cfg (init_state t0 vals mults sup off bnd) ops.
-
-Lemma reachable_linv : forall cfg st, wf_cfg cfg -> reachable cfg st -> linv cfg st.
-Proof.
-  intros cfg st W [t0 [vals [mults [sup [off [bnd [ops [H ->]]]]]]]]. apply run_linv; [assumption|]. apply init_linv. assumption.
-Qed.
+(* [reachable cfg st] (C11/Proofs.v): st = run cfg (init_state t0 vals mults supply offset bonded) ops for some history
+   [ops], some positive start time and ANY validators / multipliers / supply. *)
 
 (* supply_neutral: the OSMO supply reported to users (bank supply + supply offset) is the same after any history,
    from ANY starting state and for any validator exchange rates *)
@@ -105,6 +103,70 @@ Theorem C11_accumulator_tracks_locks : forall cfg st d v, wf_cfg cfg -> reachabl
 Proof. intros cfg st d v W R. apply (L_accum cfg). apply reachable_linv; assumption. Qed.
 Print Assumptions C11_accumulator_tracks_locks.
 
+(* refresh_exact (PARTIAL: exchange rate 1:1 at the start - preserved by every modelled operation - and no slashing):
+   immediately after the epoch refresh, for every intermediary account, delegation(acc) = GetExpectedDelegationAmount(acc)
+   = the risk-adjusted value of the total amount of exactly the locks connected to acc *)
+Theorem C11_refresh_exact_partial : forall cfg t0 vals mults sup off bnd ops ins order st' n,
+  wf_cfg cfg -> 0 < t0 -> init_ok vals mults ->
+  step cfg (run cfg (init_state t0 vals mults sup off bnd) ops) (OEpoch ins order) = Ok (st', n) ->
+  forall d v, In (d, v) (s_accs st') ->
+    delegation_tokens st' d v = Ok (value (s_mult st' d) (c_rf cfg) (conn_amt st' d v)) /\
+    expected_delegation cfg st' d v = Ok (value (s_mult st' d) (c_rf cfg) (conn_amt st' d v)).
+Proof. exact refresh_exact_history. Qed.
+Print Assumptions C11_refresh_exact_partial.
+
+(* between_epochs_drift (PARTIAL, same hypotheses): at every point of every history
+     | delegation(acc) - sum over the locks connected to acc of their risk-adjusted values | <= budget(acc)
+   where the budget ([snd (grun ...)], see [budget_next]) is 0 at the start, is set by every successful epoch to the number
+   of locks connected to acc at that refresh, grows by 2 with every successful top-up of a lock connected to acc, and is
+   unchanged by every other operation *)
+Theorem C11_between_epochs_drift_partial : forall cfg t0 vals mults sup off bnd ops,
+  wf_cfg cfg -> 0 < t0 -> init_ok vals mults ->
+  let r := grun cfg (init_state t0 vals mults sup off bnd) (fun _ _ => 0) ops in
+  fst r = run cfg (init_state t0 vals mults sup off bnd) ops /\
+  forall d v, delegation_tokens (fst r) d v = Ok (dtok (fst r) d v) /\
+              Z.abs (dtok (fst r) d v - conn_val cfg (fst r) d v) <= snd r d v.
+Proof. exact drift_history. Qed.
+Print Assumptions C11_between_epochs_drift_partial.
+
+(* how the budget evolves (by definition) *)
+Theorem C11_budget_rule : forall st B o st',
+  budget_next st B o st' =
+  match o with
+  | OEpoch _ _ => conn_cnt st'
+  | OTopUp _ id _ => match s_conn st id with Some (d, v) => upd2 B d v (B d v + 2) | None => B end
+  | _ => B
+  end.
+Proof. intros. destruct o; reflexivity. Qed.
+Print Assumptions C11_budget_rule.
+
+(* the arithmetic core: the value of a total is within one unit per summand of the total of the values *)
+Theorem C11_value_of_sum : forall m rf l, 0 <= m -> 0 <= rf <= P18 -> Forall (fun a => 0 <= a) l ->
+  Z.abs (value m rf (zsum l) - zsum (map (value m rf) l)) <= Z.of_nat (length l).
+Proof. intros. apply value_sum_bound; assumption. Qed.
+Print Assumptions C11_value_of_sum.
+
+(* The property text's literal in-between bound - at most one base unit per CURRENTLY delegated lock - is FALSE of the
+   faithful model (and of the implementation: finding C11-F1): the residue of the refresh stays when locks leave. *)
+Definition C11_drift_literal : Prop := forall cfg t0 vals mults sup off bnd ops,
+  wf_cfg cfg -> 0 < t0 -> init_ok vals mults ->
+  let st := run cfg (init_state t0 vals mults sup off bnd) ops in
+  forall d v, Z.abs (dtok st d v - conn_val cfg st d v) <= conn_cnt st d v.
+
+Definition rf_cfg := mkCfg 100 (P18 / 2) [0].
+Definition rf_vals := [(0, mkVal 1000000 (1000000 * P18))].
+Definition rf_ops := [OLock 0 0 3 100; OLock 1 0 3 100; OLock 2 0 3 100;
+  ODelegate 0 1 0; ODelegate 1 2 0; ODelegate 2 3 0; OEpoch [(0, MDirect P18)] []; OUndelegate 0 1; OUndelegate 1 2].
+Theorem C11_drift_literal_refuted : ~ C11_drift_literal.
+Proof.
+  intros H. specialize (H rf_cfg 1000 rf_vals [(0, P18)] 0 0 0 rf_ops).
+  assert (W : wf_cfg rf_cfg) by (unfold wf_cfg; vm_compute; repeat split; discriminate).
+  assert (Hi : init_ok rf_vals [(0, P18)]).
+  { split; repeat constructor; vm_compute; discriminate. }
+  specialize (H W eq_refl Hi 0 0). vm_compute in H. apply H. reflexivity.
+Qed.
+Print Assumptions C11_drift_literal_refuted.
+
 (* non-vacuity: three owners lock 3 shares each (multiplier 1, risk factor 0.5) and delegate to validator 0; an epoch
    refreshes; two undelegate, one of them unbonds; time passes; cleanup; the third is topped up *)
 Definition nv_cfg := mkCfg 100 (P18 / 2) [0].
@@ -118,9 +180,11 @@ Example C11_nonvacuous :
   let st := run nv_cfg nv_init nv_ops in
   s_conn st 3 = Some (0, 0) /\ s_synths st 3 = [mkSynth Staking 0 0 0 100] /\
   s_synths st 4 = [mkSynth Unstaking 0 0 1200 100] /\ s_locks st 1 = None /\
-  s_deleg st 0 0 = Some (4 * P18) /\ s_supply st + s_offset st = 7000000 - 500 /\ s_supply st = 7000004.
+  s_deleg st 0 0 = Some (4 * P18) /\ s_supply st + s_offset st = 7000000 - 500 /\ s_supply st = 7000004 /\
+  init_ok [(0, mkVal 1000000 (1000000 * P18)); (1, mkVal 5 (5 * P18))] [(0, P18)] /\
+  snd (grun nv_cfg nv_init (fun _ _ => 0) nv_ops) 0 0 = 5 /\ conn_val nv_cfg st 0 0 = 3.
 Proof.
   split; [unfold wf_cfg; vm_compute; repeat split; discriminate|].
   split; [do 7 eexists; split; [|reflexivity]; reflexivity|].
-  vm_compute. repeat split; reflexivity.
+  vm_compute. repeat split; try reflexivity; try discriminate; repeat constructor; discriminate.
 Qed.
